@@ -586,6 +586,9 @@ pub fn run(tier: Tier, seed: u64, miri: bool) -> i32 {
     rep.floor("decoded_kind:Changed", 100);
     rep.floor("decoded_kind:OnlyUtf8Bom", 100);
     rep.floor("outcome:decode-error", 100);
+    rep.floor("registry_cache_only_probes", 1000);
+    rep.floor("registry_decoded_kind:OnlyUtf8Bom", 50);
+    rep.floor("registry_decoded_kind:Changed", 50);
   }
   let batch = if miri { 16 } else { 64 };
   let n_batches = cases.len().div_ceil(batch);
@@ -600,6 +603,32 @@ pub fn run(tier: Tier, seed: u64, miri: bool) -> i32 {
       run_batch(&cases[b * batch..((b + 1) * batch).min(cases.len())], acc)
     })
   };
+  let mut acc = acc;
+  {
+    // registry (deferred content load) slice: utf-8 only, js/ts/json
+    let reg_cases: Vec<Case> = cases
+      .iter()
+      .filter(|c| c.charset.is_none() && c.remote)
+      .map(|c| Case {
+        media: c.media.min(2),
+        ..c.clone()
+      })
+      .collect();
+    let rb = 32;
+    let n = reg_cases.len().div_ceil(rb);
+    let acc2 = if miri {
+      let mut a = Acc::new();
+      for b in 0..n.min(2) {
+        run_registry_batch(&reg_cases[b * rb..((b + 1) * rb).min(reg_cases.len())], &mut a);
+      }
+      a
+    } else {
+      par_run(n, |b, acc| {
+        run_registry_batch(&reg_cases[b * rb..((b + 1) * rb).min(reg_cases.len())], acc)
+      })
+    };
+    acc.merge(acc2);
+  }
   rep.extra.insert("cases".into(), json!(cases.len()));
   if miri {
     // the Miri slice writes its own evidence file so that the native one
@@ -607,4 +636,154 @@ pub fn run(tier: Tier, seed: u64, miri: bool) -> i32 {
     rep.evidence_suffix = ".miri".into();
   }
   rep.finish(acc)
+}
+
+// ------------------------------------------------------------ registry path
+//
+// Files of a JSR package whose version manifest embeds module information are
+// first represented by a placeholder and get their text from a *deferred*
+// content load; that path builds the stored source separately.
+
+pub fn run_registry_batch(cases: &[Case], acc: &mut Acc) {
+  let mut world = World::new();
+  let reg = "https://jsr.io/";
+  let mut manifest = serde_json::Map::new();
+  let mut module_graph = serde_json::Map::new();
+  let mut exports = serde_json::Map::new();
+  let mut main = String::new();
+  for (i, c) in cases.iter().enumerate() {
+    let ext = match c.media {
+      0 => "js",
+      1 => "ts",
+      _ => "json",
+    };
+    let path = format!("/f{}.{}", i, ext);
+    world.add(
+      &format!("{}@s/p/1.0.0{}", reg, path),
+      Resp::Module {
+        headers: vec![],
+        content: c.bytes.clone(),
+        final_spec: None,
+      },
+    );
+    manifest.insert(
+      path.clone(),
+      json!({"size": c.bytes.len(), "checksum": format!("sha256-{}", sha256_hex(&c.bytes))}),
+    );
+    module_graph.insert(path.clone(), json!({}));
+    exports.insert(format!("./f{}", i), json!(format!(".{}", path)));
+    if ext == "json" {
+      main.push_str(&format!(
+        "import j{} from \"jsr:@s/p@1/f{}\" with {{ type: \"json\" }};\n",
+        i, i
+      ));
+    } else {
+      main.push_str(&format!("import \"jsr:@s/p@1/f{}\";\n", i));
+    }
+  }
+  world.add_text(
+    &format!("{}@s/p/meta.json", reg),
+    &json!({"versions": {"1.0.0": {}}}).to_string(),
+  );
+  world.add_text(
+    &format!("{}@s/p/1.0.0_meta.json", reg),
+    &json!({"exports": exports, "manifest": manifest, "moduleGraph2": module_graph}).to_string(),
+  );
+  world.add_text("file:///main.ts", &main);
+  let loader = ScriptedLoader::new(&world);
+  let mut graph = ModuleGraph::new(GraphKind::All);
+  let r = catch(|| {
+    crate::sched::block_on(graph.build(
+      vec![url("file:///main.ts")],
+      vec![],
+      &loader as &dyn Loader,
+      deno_graph::BuildOptions {
+        executor: &crate::sched::InlineExecutor,
+        ..Default::default()
+      },
+    ));
+  });
+  if let Err(p) = r {
+    acc.violation(
+      format!("panic/{}", p.signature()),
+      format!("build panicked: {}", p.message),
+      json!({"cases": cases.iter().map(case_json).collect::<Vec<_>>()}),
+    );
+    return;
+  }
+  let log = loader.take_log();
+  let deferred = log
+    .iter()
+    .filter(|e| e.cache_setting == "only" && e.specifier.contains("/1.0.0/f"))
+    .count();
+  acc.count_n("registry_cache_only_probes", deferred as u64);
+  for (i, c) in cases.iter().enumerate() {
+    acc.eval();
+    let ext = match c.media {
+      0 => "js",
+      1 => "ts",
+      _ => "json",
+    };
+    let u = url(&format!("{}@s/p/1.0.0/f{}.{}", reg, i, ext));
+    let exp = expected_text(&c.bytes, Enc::Utf8).unwrap();
+    let cj = json!({"path": "registry-deferred-content-load", "case": case_json(c)});
+    if !c.bytes.is_empty() {
+      acc.nontrivial(hash64(&(&c.bytes, "registry", c.media)));
+    }
+    match graph.try_get(&u) {
+      Ok(Some(module)) => {
+        let src = match module {
+          Module::Js(m) => &m.source,
+          Module::Json(m) => &m.source,
+          _ => continue,
+        };
+        acc.count(&format!("registry_decoded_kind:{:?}", src.decoded_kind));
+        if &*src.text != exp.as_str() {
+          acc.violation(
+            "registry/text-mismatch",
+            format!("stored {:?} expected {:?}", &*src.text, exp),
+            cj.clone(),
+          );
+        }
+        let before = Arc::strong_count(&src.text);
+        {
+          let ob = src.try_get_original_bytes();
+          if let Some(b) = &ob
+            && b.as_ref() != c.bytes.as_slice()
+          {
+            acc.violation(
+              format!("registry/original-bytes-differ/{:?}", src.decoded_kind),
+              format!(
+                "try_get_original_bytes() = {:02x?}, loader supplied {:02x?}",
+                b.as_ref(),
+                c.bytes
+              ),
+              cj.clone(),
+            );
+          }
+        }
+        if Arc::strong_count(&src.text) != before {
+          acc.violation("registry/refcount-changed", "strong count changed", cj.clone());
+        }
+        let size = match module {
+          Module::Js(m) => m.size(),
+          Module::Json(m) => m.size(),
+          _ => 0,
+        };
+        if size != src.text.len() {
+          acc.violation("registry/size", "size() != text length", cj.clone());
+        }
+      }
+      Ok(None) => acc.violation("registry/module-absent", format!("{}", u), cj),
+      Err(e) => {
+        // a JS file that does not parse is not part of this path (embedded
+        // module info is used); any error here is unexpected
+        acc.violation(
+          "registry/unexpected-error",
+          format!("{}: {}", u, e),
+          cj,
+        );
+      }
+    }
+  }
 }
